@@ -41,6 +41,7 @@ import CelloProofs.Lemmas.FileGlobal
 import CelloProofs.Lemmas.FileText
 import CelloGen.File
 import CelloGen.FileScan
+import Cello.FileProg
 
 namespace Cello.File
 
@@ -1058,6 +1059,141 @@ theorem C20_process_close_repaired :
     e2.log = [(2, .fopen cmdFalse .r (some 1)), (2, .on .fclose 1)] ∧ gtrack [] (untag e2.log) = some [] := by
   decide
 
+/-! ## Extension round: File_Open, File_Del and the header of `with_in` as PROGRAMS read from the source
+
+  Until this round File_Open was tied to the model by flags (`openClosesFirst`, `openThrowsOnNull`: a regular expression found the
+  statements and compared their positions).  Now its body is extracted statement by statement (`CelloGen.File.openProg`), executed
+  by `runOpen` (Cello/FileProg.lean) with `f->file` and a local `FILE*` as separate cells, and the theorems say what that program
+  does — for every stdio implementation, every library state, every File. -/
+
+/-- **the body of File_Open, as the source has it now, IS the model's `fileOpen`** — for every stdio, every configuration of
+    File_Close, every library state, every state of the File, every path and mode (so every theorem about `fileOpen` / `step … (.open …)`
+    — closed ⇒ refused, close-once, the round trips — is a theorem about the statements of src/File.c); File_Del likewise -/
+theorem C20_open_source_is_model {σ : Type} (io : Stdio σ) (cfg : Cfg) (l : σ) (f : Option Handle) (file : Nat) (m : Mode) :
+    fileOpenSrc io cfg l f file m = fileOpen io cfg l f file m ∧ fileDelSrc io cfg l f = fileDel io cfg l f := by
+  have hp : CelloGen.File.openProg = [.closeIfHeld, .fopenTo .field, .throwIfNull .field, .ret] := by decide
+  have hd : CelloGen.File.delProg = [.closeIfHeld] := by decide
+  obtain ⟨fo, fc, fs, ft, ff, fe, fr, fw, vp, vi, vw⟩ := io
+  constructor
+  · unfold fileOpenSrc fileOpen
+    rw [hp]
+    cases f with
+    | none =>
+      simp only [runOpen, List.nil_append]
+      cases h : (fo l file m) with
+      | mk l2 r => cases r <;> simp [runOpen, h]
+    | some h0 =>
+      simp only [runOpen, List.nil_append, fileClose]
+      cases hc : fc l h0 with
+      | mk l1 ok =>
+        cases ok
+        · cases cfg.closeDrops <;> simp [runOpen, refused]
+        · simp only [if_true, runOpen, List.nil_append]
+          cases h : (fo l1 file m) with
+          | mk l2 r => cases r <;> simp [runOpen, h]
+  · unfold fileDelSrc fileDel
+    rw [hd]
+    cases f with
+    | none => simp [runOpen]
+    | some h0 =>
+      simp only [runOpen, List.nil_append, fileClose]
+      cases hc : fc l h0 with
+      | mk l1 ok => cases ok <;> cases cfg.closeDrops <;> simp [runOpen]
+
+/-- **close, then open — and a failed fopen leaves the File closed** (the statements of src/File.c, executed): on a File that
+    holds `h` whose fclose succeeds, File_Open calls `fclose(h)` BEFORE `fopen` and nothing else; whatever fopen answers, the old
+    handle is gone; when fopen answers NULL the File holds nothing and IOError is raised — so the next operation is refused
+    (`C20_closed_refused`) instead of reaching a stale stream -/
+theorem C20_open_closes_then_opens {σ : Type} (io : Stdio σ) (l : σ) (h : Handle) (file : Nat) (m : Mode)
+    (hok : (io.fclose l h).2 = true) :
+    let r := fileOpenSrc io Cfg.fixed l (some h) file m
+    let o := io.fopen (io.fclose l h).1 file m
+    r.calls = [.on .fclose h, .fopen file m o.2] ∧ r.f = o.2 ∧ r.lib = o.1 ∧
+      (o.2 = none → r.out = .raised .IOError) ∧ (o.2 ≠ none → r.out = .ok ()) := by
+  have hp : CelloGen.File.openProg = [.closeIfHeld, .fopenTo .field, .throwIfNull .field, .ret] := by decide
+  obtain ⟨fo, fc, fs, ft, ff, fe, fr, fw, vp, vi, vw⟩ := io
+  simp only at hok
+  simp only [fileOpenSrc, hp, runOpen, fileClose, Cfg.fixed, List.nil_append]
+  cases hc : fc l h with
+  | mk l1 ok =>
+    rw [hc] at hok
+    simp only at hok
+    subst hok
+    simp only [if_true, runOpen]
+    cases ho : fo l1 file m with
+    | mk l2 r => cases r <;> simp [runOpen]
+
+/-- a File that holds nothing: one call, fopen; the File holds what fopen answered -/
+theorem C20_open_on_closed {σ : Type} (io : Stdio σ) (cfg : Cfg) (l : σ) (file : Nat) (m : Mode) :
+    let r := fileOpenSrc io cfg l none file m
+    let o := io.fopen l file m
+    r.calls = [.fopen file m o.2] ∧ r.f = o.2 ∧ (o.2 = none → r.out = .raised .IOError) := by
+  have hp : CelloGen.File.openProg = [.closeIfHeld, .fopenTo .field, .throwIfNull .field, .ret] := by decide
+  obtain ⟨fo, fc, fs, ft, ff, fe, fr, fw, vp, vi, vw⟩ := io
+  simp only [fileOpenSrc, hp, runOpen, List.nil_append]
+  cases ho : fo l file m with
+  | mk l2 r => cases r <;> simp [runOpen]
+
+/-- **every history in which sopen is executed by the source's statements is well bracketed**: replacing the model's File_Open
+    by the extracted program changes no run (`C20_open_source_is_model`), so `C20_close_once` holds of it -/
+theorem C20_open_source_close_once {σ : Type} (io : Stdio σ) (l : σ) (f : Option Handle) (file : Nat) (m : Mode) :
+    ∃ c', track f (fileOpenSrc io Cfg.fixed l f file m).calls = some c' ∧ c' = (fileOpenSrc io Cfg.fixed l f file m).f := by
+  rw [(C20_open_source_is_model io Cfg.fixed l f file m).1]
+  exact ⟨_, fileOpen_track io l f file m, rfl⟩
+
+/-- **the order "fopen first, close the old stream afterwards" refuted** (seeded changes c20_e / c20_g / c20_i / c20_k / c20_m):
+    on the reference stdio, reopening file 2 for writing on a File that holds a stream on file 2, the program `openFirstProg`
+    opens a SECOND stream while the first is still held — its log is not well bracketed (`track` rejects it: a successful fopen
+    while a handle is held), two streams stand on one file at the moment of truncation (what the buffered bytes of the first do to
+    the truncated file is outside every stdio model of this engine) — while the source's program closes first and tracks -/
+theorem C20_open_first_refuted :
+    let l1 := (fileOpen refIO Cfg.fixed Ref.init none 2 .w).lib
+    let bad := runOpen refIO Cfg.fixed 2 .w openFirstProg ⟨l1, some 1, none, []⟩
+    let good := fileOpenSrc refIO Cfg.fixed l1 (some 1) 2 .w
+    bad.calls = [.fopen 2 .w (some 2), .on .fclose 1] ∧ track (some 1) bad.calls = none ∧ bad.out = .ok () ∧
+      good.calls = [.on .fclose 1, .fopen 2 .w (some 2)] ∧ track (some 1) good.calls = some (some 2) := by
+  refine ⟨by decide +kernel, by decide +kernel, by decide +kernel, by decide +kernel, by decide +kernel⟩
+
+/-- … and what the changed order is advertised for — "a failed open leaves the current file untouched" — is a different contract:
+    under `openFirstProg` a failed fopen leaves the File OPEN on the old stream (no fclose), under the source's program closed -/
+theorem C20_open_first_keeps_old_on_failure {σ : Type} (io : Stdio σ) (l : σ) (h : Handle) (file : Nat) (m : Mode)
+    (hf : (io.fopen l file m).2 = none) :
+    (runOpen io Cfg.fixed file m openFirstProg ⟨l, some h, none, []⟩).f = some h ∧
+      (runOpen io Cfg.fixed file m openFirstProg ⟨l, some h, none, []⟩).calls = [.fopen file m none] := by
+  simp [openFirstProg, runOpen, hf]
+
+/-- **the header of `with_in`, as terms, is the clause model the `with` theorems are about**: init `var X = start_in(S)`,
+    condition `X isnt NULL`, step `X = stop_in(X)`; start_in / stop_in look up the `Start` instance, call `start` / `stop` on
+    their argument when the type has one, and return their argument / NULL -/
+theorem C20_with_program_cfg :
+    withCfgOf CelloGen.File.withProg = some WithCfg.fixed ∧
+    CelloGen.File.startInFn = ⟨"Start", "start", "start", "self", "self"⟩ ∧
+    CelloGen.File.stopInFn = ⟨"Start", "stop", "stop", "self", "NULL"⟩ := by decide
+
+/-- **the for loop of the header, executed on its terms**: in every world — whatever evaluating the source expression `S` does
+    and yields, whatever start_in and stop_in do to the world, provided start_in returns its argument and stop_in returns NULL
+    (`C20_with_program_cfg`) — and for every body that reaches its end: `S` is evaluated exactly ONCE, start_in is applied to the
+    object that evaluation yielded, the body runs exactly once with the loop variable bound to it, stop_in is applied to the loop
+    variable — that same object —, and the loop ends -/
+theorem C20_with_program_protocol {ω : Type} (env : TEnv ω) (body : ω → Option Nat → ω) (w : ω) (o : Nat) (fuel : Nat)
+    (hS : (env.evalS w).2 = some o)
+    (hstart : ∀ w v, (env.fn "start_in" w v).2 = v) (hstop : ∀ w v, (env.fn "stop_in" w v).2 = none) :
+    (runWith env CelloGen.File.withProg body (fuel + 2) w).2 =
+      [.evalS (some o), .call "start_in" (some o) (some o), .body (some o), .call "stop_in" (some o) none] := by
+  have hp : CelloGen.File.withProg = ⟨.x, .call "start_in" .s, .x, true, .null, .x, .call "stop_in" .x⟩ := by decide
+  simp [runWith, hp, loopFor, evalT, hS, hstart, hstop]
+
+/-- non-vacuity, and the variant `X = stop_in(S)` refuted on the terms (seeded changes c20_d / c20_h / c20_l): in a world where
+    `S` constructs an object on every evaluation, the source's header evaluates it once and stops object 0; the variant evaluates
+    it twice and stops object 1 — the object the loop variable holds is never stopped -/
+theorem C20_with_program_reeval_refuted :
+    (runWith freshEnv CelloGen.File.withProg (fun w _ => w) 5 0).2 =
+        [.evalS (some 0), .call "start_in" (some 0) (some 0), .body (some 0), .call "stop_in" (some 0) none] ∧
+    (runWith freshEnv withProgReeval (fun w _ => w) 5 0).2 =
+        [.evalS (some 0), .call "start_in" (some 0) (some 0), .body (some 0), .evalS (some 1), .call "stop_in" (some 1) none] ∧
+    withCfgOf withProgReeval = some WithCfg.reeval := by
+  refine ⟨by decide, by decide, by decide⟩
+
 end Cello.File
 
 /-! ## Text written with print_to is read back identical with scan_from: every conversion, every length modifier
@@ -1214,5 +1350,37 @@ theorem C20_scan_sign_extending_arm_refuted :
   have := h false (2 ^ 31) (by decide)
   revert this
   decide +kernel
+
+/-! ### Extension round: the floating branch as a chain of arms -/
+
+/-- **each floating specification reaches an arm whose object has the type libc stores** (decided on the arms extracted from the
+    source): for `%f %F %e %E %g %G` with and without `l`, the chain of tests on `fmt_buf` selects an arm; the object whose address
+    that arm hands to scanf is a `double` exactly when the specification has `l` and a `float` otherwise — the type C11 7.21.6.2
+    prescribes for the pointer argument —, and the Float is made of that object (`$F(tmp)`) -/
+theorem C20_scan_float_arms_select : ∀ (l : Bool) (cv : FConv),
+    ∃ a, floatArmFor src l cv = some a ∧ a.obj = libcFloatObj l ∧ a.fin = "tmp" := by
+  intro l cv; cases l <;> cases cv <;> exact ⟨_, rfl, by decide, by decide⟩
+
+/-- no arm is dead and no arm reads a third type: every arm of the source's chain is selected by one of the twelve specifications -/
+theorem C20_scan_float_arms_all_reached :
+    src.farms.all (fun a => [false, true].any (fun l => [FConv.f, .F, .e, .E, .g, .G].any (fun cv => floatArmFor src l cv == some a)))
+      = true := by decide
+
+/-- **text of floating values: what scan_from delivers is libc's conversion at the width the specification names** — never the
+    undefined store of one width into an object of the other: for every specification and every input, the floating branch of
+    `scan_from_with` is `scanFloating` narrowed to `float` exactly without `l` -/
+theorem C20_text_float_conversion (l : Bool) (cv : FConv) (input : List Nat) :
+    scanFloatSpec src l cv input = Cello.Text.scanFloating (!l) input := by
+  cases l <;> cases cv <;> rfl
+
+/-- **the variant "always a double" refuted** (seeded change c20_n: the two arms merged, by analogy with printf where `%f` and
+    `%lf` coincide): `%f` then reaches an arm whose object is a `double` while libc stores a `float` — undefined; with `l` nothing
+    changes -/
+theorem C20_scan_float_single_double_arm_refuted :
+    let bad : Src := { src with farms := [⟨"else", [], "double", "tmp"⟩] }
+    scanFloatSpec bad false .f [51, 46, 50, 53] = .ub ∧ scanFloatSpec bad false .g [49] = .ub ∧
+    scanFloatSpec bad true .f [51, 46, 50, 53] = scanFloatSpec src true .f [51, 46, 50, 53] ∧
+    scanFloatSpec src false .f [51, 46, 50, 53] = .ok (0x400A000000000000, []) := by
+  refine ⟨by decide, by decide, by decide +kernel, by decide +kernel⟩
 
 end Cello.FileText
